@@ -118,6 +118,26 @@ func init() {
 	reg(libPkg+"VerifStop", func(fr *frame, args []Value) Value {
 		panic(pathEnd{kind: "done"})
 	})
+	reg(libPkg+"VerifIte", func(fr *frame, args []Value) Value {
+		return fr.x.ts.Ite(args[0].(*Term), args[1].(*Term), args[2].(*Term))
+	})
+	reg(libPkg+"VerifClockAdvance", func(fr *frame, args []Value) Value {
+		x := fr.x
+		if x.manualClock == nil {
+			x.manualClock = x.ts.BV(1_700_000_000_000, 64)
+		}
+		x.manualClock = x.ts.Bin(OpAdd, x.manualClock, args[0].(*Term))
+		return nil
+	})
+	reg("(time.Time).UnixMilli", func(fr *frame, args []Value) Value {
+		t := args[0].(Struct)
+		if w, ok := t[0].(*Term); ok {
+			if ms, ok := fr.x.wallMs[w.ID]; ok {
+				return ms
+			}
+		}
+		return fallthroughVal{}
+	})
 	reg(libPkg+"VerifFireTimers", func(fr *frame, args []Value) Value {
 		n := 0
 		for fr.x.fireTimer() {
@@ -441,6 +461,29 @@ func init() {
 		return Slice{S: out}
 	})
 
+	// ---- sort.Slice: insertion sort (what pdqsort does for n <= 12), less() interpreted ----
+	sortSlice := func(fr *frame, args []Value) Value {
+		x := fr.x
+		sl := args[0].(Iface).V.(Slice).S
+		if len(sl) > 12 {
+			x.unsupported("sort.Slice of more than 12 elements")
+		}
+		for i := 1; i < len(sl); i++ {
+			for j := i; j > 0; j-- {
+				r := x.call(fr, 0, args[1], []Value{x.ts.BV(uint64(j), 64), x.ts.BV(uint64(j-1), 64)}).(*Term)
+				if !x.Branch(r) {
+					break
+				}
+				a, b := copyVal(sl[j]), copyVal(sl[j-1])
+				x.store(&sl[j], b)
+				x.store(&sl[j-1], a)
+			}
+		}
+		return nil
+	}
+	reg("sort.Slice", sortSlice)
+	reg("sort.SliceStable", sortSlice)
+
 	// ---- math bits ----------------------------------------------------------------------
 	id := func(fr *frame, args []Value) Value { return args[0] }
 	reg("math.Float64bits", id)
@@ -698,21 +741,32 @@ func (x *Exec) timeType() types.Type {
 
 const unixToInternal = (1969*365 + 1969/4 - 1969/100 + 1969/400) * 86400
 
-// nowValue returns a time.Time for a fresh symbolic instant not before the previous one (UTC).
+// nowValue returns a time.Time (UTC, no monotonic reading). Default: a fresh symbolic instant
+// not before the previous one. After lib.VerifClockAdvance the clock is manual: the instant is
+// the harness-controlled millisecond counter.
 func (x *Exec) nowValue() Value {
 	ts := x.ts
-	sec := x.Fresh("now.sec", 64)
-	ms := x.Fresh("now.ms", 64)
 	const base = 1_700_000_000
-	x.Assume(ts.And(ts.Cmp(OpULe, ts.BV(base, 64), sec), ts.Cmp(OpULt, sec, ts.BV(base+1<<20, 64))), "clock range (2^20 s window)")
-	x.Assume(ts.Cmp(OpULt, ms, ts.BV(1000, 64)), "clock ms < 1000")
-	if x.lastNow[0] != nil {
-		ps, pm := x.lastNow[0], x.lastNow[1]
-		x.Assume(ts.Or(ts.Cmp(OpULt, ps, sec), ts.And(ts.Eq(ps, sec), ts.Cmp(OpULe, pm, ms))), "clock non-decreasing")
+	var total *Term // unix milliseconds
+	var sec, ms *Term
+	if x.manualClock != nil {
+		total = x.manualClock
+		sec = ts.Bin(OpUDiv, total, ts.BV(1000, 64))
+		ms = ts.Bin(OpURem, total, ts.BV(1000, 64))
+	} else {
+		sec = x.Fresh("now.sec", 64)
+		ms = x.Fresh("now.ms", 64)
+		x.Assume(ts.And(ts.Cmp(OpULe, ts.BV(base, 64), sec), ts.Cmp(OpULt, sec, ts.BV(base+1<<20, 64))), "clock range (2^20 s window)")
+		x.Assume(ts.Cmp(OpULt, ms, ts.BV(1000, 64)), "clock ms < 1000")
+		if x.lastNow[0] != nil {
+			ps, pm := x.lastNow[0], x.lastNow[1]
+			x.Assume(ts.Or(ts.Cmp(OpULt, ps, sec), ts.And(ts.Eq(ps, sec), ts.Cmp(OpULe, pm, ms))), "clock non-decreasing")
+		}
+		x.lastNow = [2]*Term{sec, ms}
+		total = ts.Bin(OpAdd, ts.Bin(OpMul, sec, ts.BV(1000, 64)), ms)
 	}
-	x.lastNow = [2]*Term{sec, ms}
 	nsec := ts.Bin(OpMul, ms, ts.BV(1_000_000, 64))
-	x.nsecMs[nsec.ID] = ms
+	x.wallMs[nsec.ID] = total
 	ext := ts.Bin(OpAdd, sec, ts.BV(uint64(unixToInternal), 64))
 	return Struct{nsec, ext, Ptr(nil)}
 }
